@@ -1,7 +1,7 @@
 (* Props/C16.v — property C16: element names and identifiers are unique and used consistently.
    Only statements; proofs are [exact <lemma>] into Circuit/Ident_facts.v. *)
 From Coq Require Import ZArith Bool List.
-From PV Require Import Base.Outcome Circuit.Tree Circuit.Printer Circuit.Printer_facts Circuit.Ident Circuit.Ident_facts.
+From PV Require Import Base.Outcome Circuit.Tree Circuit.Printer Circuit.Printer_facts Circuit.Ident Circuit.Ident_facts Circuit.IdentQueue Circuit.IdentQueue_facts.
 From PV Require Import gen.Classes_gen.
 Import ListNotations.
 
@@ -54,6 +54,29 @@ Theorem C16_traversal_exactly_the_elements :
   forall f c, (depth_conn c <= f)%nat -> forall u, In u (all_uids_conn f c) <-> In u (map ie_uid (elems f c)).
 Proof. intros f c H u. split; [apply traversal_complete; auto|apply traversal_sound; auto]. Qed.
 Print Assumptions C16_traversal_exactly_the_elements.
+
+(* The traversal AS THE CODE PERFORMS IT (Connection._get_elements_recursive: a first-in first-out work list; a popped sub-circuit is
+   replaced by the result of a recursive call appended at the end, a popped element is listed unless listed already and pushes its
+   sub-circuits; model Circuit/IdentQueue.v, compared with the observed order on every run) computes exactly the recursive order
+   [elems] the theorems above are about — for every tree and any bounds not smaller than the nesting depth:
+   whatever the executable model returns is that order; *)
+Theorem C16_worklist_returns_the_recursive_order :
+  forall d K c res, (depth_conn c <= d)%nat -> qelems d K c = Some res -> res = elems d c.
+Proof. exact qelems_is_elems. Qed.
+Print Assumptions C16_worklist_returns_the_recursive_order.
+
+(* it does return, for every iteration bound from some point on (the loops terminate although containers inside sub-circuits are
+   expanded again and again: every re-expansion only reaches strictly shallower sub-circuits); *)
+Theorem C16_worklist_terminates_with_the_recursive_order :
+  forall d c, (depth_conn c <= d)%nat -> exists k0, forall K, (k0 <= K)%nat -> qelems d K c = Some (elems d c).
+Proof. exact qelems_terminates_with_elems. Qed.
+Print Assumptions C16_worklist_terminates_with_the_recursive_order.
+
+(* and in the big-step semantics of the loop (no bounds on iterations at all) the traversal has exactly one result *)
+Theorem C16_worklist_semantics_total_and_deterministic :
+  forall d c, (depth_conn c <= d)%nat -> QElems d c (elems d c) /\ forall res, QElems d c res -> res = elems d c.
+Proof. intros d c H. split; [apply queue_computes_elems; exact H|intros res Hr; apply (queue_result_unique d c res H Hr)]. Qed.
+Print Assumptions C16_worklist_semantics_total_and_deterministic.
 
 Example C16_nonvacuous :
   let es := [mkIE 0 [82%N] [] [[82%N]] []; mkIE 1 [67%N] [] [[67%N]] []; mkIE 2 [82%N] [97%N] [[82%N]] []; mkIE 3 [82%N] [] [[82%N]] []] in
